@@ -59,9 +59,53 @@ NAMES = NameSource()
 class _FakeUUID:
     def __init__(self, s):
         self.s = s
+        self.hex = s.replace("-", "")
 
     def __str__(self):
         return self.s
+
+
+SIM_PID = 4242
+
+
+class _DetNames:
+    """tempfile's candidate-name sequence: deterministic when the temporary
+    file is being made for repository code (first caller outside tempfile),
+    the genuine random one for everybody else (harness scratch directories
+    on the real file system must not collide across workers)."""
+
+    def __init__(self, real):
+        self._real = real
+
+    def __iter__(self):
+        return self
+
+    def __next__(self):
+        if _repo_is_calling(2):
+            return NAMES.next("tmp")
+        return next(self._real)
+
+
+def _repo_is_calling(depth):
+    f = sys._getframe(depth)
+    while f is not None and f.f_globals.get("__name__") in (
+            "tempfile", "sim.simproc", "contextlib"):
+        f = f.f_back
+    return (f is not None and f.f_globals.get("__name__", "")
+            .startswith("neuroglancer_scripts"))
+
+
+def _gettempdir():
+    """Repository code asking for the default temporary directory gets the
+    simulated machine's (/simfs/tmp, created on first use), so that
+    mkdtemp()/mkstemp()/NamedTemporaryFile() without dir= stay inside the
+    simulation instead of escaping to the real /tmp."""
+    from sim import simfs
+    fs = simfs._CURRENT[0]
+    if fs is not None and _repo_is_calling(2):
+        fs.dirs.setdefault("/simfs/tmp", True)
+        return "/simfs/tmp"
+    return _ORIG["gettempdir"]()
 
 
 def _uuid4():
@@ -170,6 +214,20 @@ def install_names():
         sfa.uuid4 = _uuid4
         sfa.TemporaryDirectory = _SimTemporaryDirectory
     uuid.uuid4 = _from_repo(_uuid4, _ORIG["uuid4"])
+    # other per-process / per-call identifiers a writer may put into a
+    # temporary name: the pid, tempfile's random names, the default temp dir
+    if "getpid" not in _ORIG:
+        import secrets
+        _ORIG["getpid"] = os.getpid
+        _ORIG["gettempdir"] = tempfile.gettempdir
+        os.getpid = _from_repo(lambda: SIM_PID, _ORIG["getpid"])
+        tempfile.gettempdir = _gettempdir
+        tempfile._name_sequence = _DetNames(tempfile._RandomNameSequence())
+        _ORIG["token_hex"] = secrets.token_hex
+        secrets.token_hex = _from_repo(
+            lambda n=None: NAMES.next("x").encode().hex()[-2 * (n or 32):]
+            .rjust(2 * (n or 32), "0"),
+            _ORIG["token_hex"])
     tempfile.TemporaryDirectory = _from_repo(_SimTemporaryDirectory,
                                              _ORIG["TemporaryDirectory"])
 
